@@ -334,7 +334,8 @@ def labels_case():
 
             def copy(self, **kw):
                 pd = v["phi_dot"] if kw.get("frame") == "F" else v["own_dot"]
-                return types.SimpleNamespace(phi=v["phi"], phi_dot=pd, r_dot=pd, theta=0)
+                ph = v["phi"] if kw.get("frame") == "F" else v["own_dot"]
+                return types.SimpleNamespace(phi=ph, phi_dot=pd, r_dot=pd, theta=0)
 
         class O:
             event = None
@@ -350,16 +351,18 @@ def labels_case():
         aos = sig.info(O()).info
         nd = node.info(O()).info
         ndf = ls.NodeListener(frame="F").info(OF()).info
+        watched = ls.NodeListener(frame="F")(OF())
         chk = mx.check(O())
         up = bool(v["phi_dot"] > 0)
         ndown = bool(v["phi_dot"] < 0)
         visible_descending = bool(v["phi"] > 0) and not up
         return {"aos_iff_rising": 1 if (aos == "AOS") == up else 0, "desc_iff_falling": 1 if (nd == "Desc Node") == ndown else 0,
                 "desc_iff_falling_in_watched_frame": 1 if (ndf == "Desc Node") == ndown else 0,
+                "node_quantity_is_watched_latitude": watched - v["phi"] + 1,
                 "max_needs_visible_and_not_rising": 1 if ((not chk) or visible_descending) else 0}
 
     def ref(env, v, out):
-        return {"aos_iff_rising": 1, "desc_iff_falling": 1, "desc_iff_falling_in_watched_frame": 1, "max_needs_visible_and_not_rising": 1}
+        return {"aos_iff_rising": 1, "desc_iff_falling": 1, "desc_iff_falling_in_watched_frame": 1, "node_quantity_is_watched_latitude": 1, "max_needs_visible_and_not_rising": 1}
     return Case("labels", ins, run, ref, timeout=60, maxpaths=400, tol=0, abs_tol=0.5,
                 desc="AOS iff the elevation rate is positive (LOS otherwise), Desc Node iff the latitude rate in the watched frame (NodeListener(frame=)) is negative, a MAX event is "
                      "only considered above the horizon while the elevation is not rising")
